@@ -68,12 +68,37 @@ def insert_tree(
         )
 
         if (
-            new_tree.find_node(tree)
-            is not None  # In rare cases things fail (see simple-tar case study)
+            contains_inserted_tree(new_tree)
             and new_tree.structural_hash() not in result_hashes
         ):
             result.append(new_tree)
             result_hashes.add(new_tree.structural_hash())
+
+    def contains_inserted_tree(new_tree: DerivationTree) -> bool:
+        # In rare cases things fail (see simple-tar case study): the inserted tree
+        # is missing, or re-inserting displaced subtrees overwrote parts of it.
+        path_to_tree = new_tree.find_node(tree)
+        if path_to_tree is None:
+            return False
+
+        embedded = new_tree.get_subtree(path_to_tree)
+        for path, node in tree.paths():
+            if not embedded.is_valid_path(path):
+                return False
+
+            embedded_node = embedded.get_subtree(path)
+            if embedded_node.value != node.value:
+                return False
+
+            if node.children is None:
+                continue  # Open leaves may have been expanded or filled
+
+            if embedded_node.id != node.id or len(
+                embedded_node.children or ()
+            ) != len(node.children):
+                return False
+
+        return True
 
     graph = graph or GrammarGraph.from_grammar(non_canonical(grammar))
     current_path = ()
